@@ -7,21 +7,70 @@ use std::sync::Once;
 /// coarse clock (seconds since start), advanced by the watchdog thread
 pub static TICK: std::sync::atomic::AtomicU64 = std::sync::atomic::AtomicU64::new(1);
 /// one slot per thread: 0 = not inside the code under test, otherwise the tick at which the
-/// current call into it started
-static SLOTS: std::sync::Mutex<Vec<std::sync::Arc<std::sync::atomic::AtomicU64>>> = std::sync::Mutex::new(Vec::new());
+/// current call into it started; plus the kernel thread id, so that the watchdog can read the
+/// CPU time the thread has consumed (/proc/self/task/<tid>/stat)
+pub struct Slot {
+    pub since: std::sync::atomic::AtomicU64,
+    pub tid: u64,
+}
+static SLOTS: std::sync::Mutex<Vec<std::sync::Arc<Slot>>> = std::sync::Mutex::new(Vec::new());
+/// longest CPU time (s) observed so far inside one call into the code under test (sampled once per second)
+pub static LONGEST_CPU_S: std::sync::atomic::AtomicU64 = std::sync::atomic::AtomicU64::new(0);
+
+fn current_tid() -> u64 {
+    std::fs::read_link("/proc/thread-self").ok().and_then(|p| p.file_name().and_then(|f| f.to_str().and_then(|s| s.parse().ok()))).unwrap_or(0)
+}
+
+/// CPU time (user + system) of one thread of this process in clock ticks (100 per second on Linux)
+fn thread_cpu_ticks(tid: u64) -> Option<u64> {
+    let s = std::fs::read_to_string(format!("/proc/self/task/{}/stat", tid)).ok()?;
+    // the command name (field 2) is parenthesised and may contain spaces: split after the last ')'
+    let rest = &s[s.rfind(')')? + 1..];
+    let f: Vec<&str> = rest.split_whitespace().collect();
+    // rest starts at field 3 (state): utime = field 14, stime = field 15
+    Some(f.get(11)?.parse::<u64>().ok()? + f.get(12)?.parse::<u64>().ok()?)
+}
 
 thread_local! {
-    static SLOT: std::sync::Arc<std::sync::atomic::AtomicU64> = {
-        let a = std::sync::Arc::new(std::sync::atomic::AtomicU64::new(0));
+    static SLOT: std::sync::Arc<Slot> = {
+        let a = std::sync::Arc::new(Slot { since: std::sync::atomic::AtomicU64::new(0), tid: current_tid() });
         SLOTS.lock().unwrap().push(std::sync::Arc::clone(&a));
         a
     };
 }
 
-/// longest time (in ticks = seconds) any thread has currently spent inside one call into the code under test
-pub fn longest_call_in_progress() -> u64 {
-    let now = TICK.load(std::sync::atomic::Ordering::Relaxed);
-    SLOTS.lock().unwrap().iter().map(|s| { let t = s.load(std::sync::atomic::Ordering::Relaxed); if t == 0 { 0 } else { now.saturating_sub(t) } }).max().unwrap_or(0)
+/// Called once per second by the watchdog. Returns the largest CPU time (in seconds) that any
+/// thread has consumed inside the call into the code under test it is currently executing. CPU
+/// time, not wall-clock time: a loaded machine stretches wall-clock durations arbitrarily, while
+/// a call that does not return burns CPU. `book` is the watchdog's per-thread record
+/// (tick at which the call started, CPU ticks when the watchdog first saw it in progress).
+pub fn longest_call_in_progress(book: &mut std::collections::HashMap<u64, (u64, u64)>) -> u64 {
+    let slots: Vec<std::sync::Arc<Slot>> = SLOTS.lock().unwrap().iter().cloned().collect();
+    let mut worst = 0u64;
+    for s in slots {
+        let since = s.since.load(std::sync::atomic::Ordering::Relaxed);
+        if since == 0 || s.tid == 0 {
+            book.remove(&s.tid);
+            continue;
+        }
+        let cpu = match thread_cpu_ticks(s.tid) {
+            Some(c) => c,
+            None => {
+                book.remove(&s.tid);
+                continue;
+            }
+        };
+        match book.get(&s.tid) {
+            Some(&(b_since, b_cpu)) if b_since == since => {
+                worst = worst.max(cpu.saturating_sub(b_cpu) / 100);
+            }
+            _ => {
+                book.insert(s.tid, (since, cpu));
+            }
+        }
+    }
+    LONGEST_CPU_S.fetch_max(worst, std::sync::atomic::Ordering::Relaxed);
+    worst
 }
 
 /// report a call into the code under test that does not return as a violation of the property
@@ -32,9 +81,9 @@ pub fn report_hang(secs: u64) -> ! {
             let dir = format!("{}/replays/{}", root, prop);
             let _ = std::fs::create_dir_all(&dir);
             let path = format!("{}/non-termination.json", dir);
-            let body = format!("{{\n  \"property\": \"{}\",\n  \"signature\": \"call into the code under test does not return\",\n  \"message\": \"an operation of the code under test has been running for {} s (every operation of the explored configurations returns within milliseconds on the unchanged tree)\"\n}}\n", prop, secs);
+            let body = format!("{{\n  \"property\": \"{}\",\n  \"signature\": \"call into the code under test does not return\",\n  \"message\": \"an operation of the code under test has consumed {} s of CPU time without returning (the longest call on the unchanged tree is reported in the evidence as longest_subject_call_cpu_s; the cap is VERIF_HANG_CAP_S)\"\n}}\n", prop, secs);
             let _ = std::fs::write(&path, body);
-            eprintln!("violation [call into the code under test does not return] running for {} s", secs);
+            eprintln!("violation [call into the code under test does not return] {} s of CPU time inside one call", secs);
             println!("VIOLATION property={} replay={}", prop, path);
             std::process::exit(1);
         }
@@ -98,13 +147,13 @@ pub fn install() {
 /// Run `f` under the non-termination watch only (no panic capture): used around oracle code
 /// that calls into the code under test (queries), so that a call that never returns is noticed.
 pub fn watch<R>(f: impl FnOnce() -> R) -> R {
-    let outer = SLOT.with(|s| s.load(std::sync::atomic::Ordering::Relaxed));
+    let outer = SLOT.with(|s| s.since.load(std::sync::atomic::Ordering::Relaxed));
     if outer == 0 {
-        SLOT.with(|s| s.store(TICK.load(std::sync::atomic::Ordering::Relaxed), std::sync::atomic::Ordering::Relaxed));
+        SLOT.with(|s| s.since.store(TICK.load(std::sync::atomic::Ordering::Relaxed), std::sync::atomic::Ordering::Relaxed));
     }
     let r = f();
     if outer == 0 {
-        SLOT.with(|s| s.store(0, std::sync::atomic::Ordering::Relaxed));
+        SLOT.with(|s| s.since.store(0, std::sync::atomic::Ordering::Relaxed));
     }
     r
 }
@@ -113,13 +162,13 @@ pub fn watch<R>(f: impl FnOnce() -> R) -> R {
 pub fn catch<R>(f: impl FnOnce() -> R) -> Result<R, String> {
     install();
     QUIET.with(|q| q.set(q.get() + 1));
-    let nested = QUIET.with(|q| q.get()) > 1 || SLOT.with(|s| s.load(std::sync::atomic::Ordering::Relaxed)) != 0;
+    let nested = QUIET.with(|q| q.get()) > 1 || SLOT.with(|s| s.since.load(std::sync::atomic::Ordering::Relaxed)) != 0;
     if !nested {
-        SLOT.with(|s| s.store(TICK.load(std::sync::atomic::Ordering::Relaxed), std::sync::atomic::Ordering::Relaxed));
+        SLOT.with(|s| s.since.store(TICK.load(std::sync::atomic::Ordering::Relaxed), std::sync::atomic::Ordering::Relaxed));
     }
     let r = panic::catch_unwind(AssertUnwindSafe(f));
     if !nested {
-        SLOT.with(|s| s.store(0, std::sync::atomic::Ordering::Relaxed));
+        SLOT.with(|s| s.since.store(0, std::sync::atomic::Ordering::Relaxed));
     }
     QUIET.with(|q| q.set(q.get() - 1));
     r.map_err(|_| LAST.with(|l| l.borrow().clone()))
